@@ -143,3 +143,140 @@ def run_fork_rlock(kind, seed=0, tid=1):
                 'program': 'holder in the parent, release attempted by a forked child', 'schedule': [], 'ev': ev}
     finally:
         envctl.rm(d)
+
+
+# ----------------------------------------------------------------------- C20
+def run_averager(cfg, program, strategy, seed=0, tid=1):
+    """program: {cid: [('add', v) | ('get',) | ('pop',)]}; values are small integers"""
+    import diskcache
+    envctl.SeededUrandom(seed).install()
+    d = envctl.scratch('avg')
+    interpose.install(None, d)
+    base = diskcache.Cache(d, timeout=0)
+    shared = diskcache.Cache(d, timeout=0) if cfg.get('shared') else None
+    KEY = 'latency'
+
+    def snap(conn):
+        raw = conn.raw if hasattr(conn, 'raw') else conn.execute
+        rows = raw('SELECT mode, filename, value FROM Cache WHERE key = ? AND raw = 1', (KEY,)).fetchall()
+        if not rows:
+            return {'tc': [0, 0]}
+        mode, filename, value = rows[0]
+        total, count = base.disk.fetch(mode, filename, value, False)
+        return {'tc': [int(total), count] if float(total) == int(total) else [-1, count]}
+    sch = sched.Scheduler(d, snap, strategy, busy_budget=2)
+    caches = {}
+
+    def pair(x, cache):
+        # the mean is reported; the (total, count) pair is read back through the public API for the comparison
+        return x
+
+    try:
+        def client(cid, ops):
+            def body(c):
+                cache = caches[cid]
+                ave = diskcache.Averager(cache, KEY)
+                for op in ops:
+                    sch.yield_point('call', op[0])
+                    sch.emit({'ev': 'call', 'c': cid, 'op': op[0], 'v': op[1] if len(op) > 1 else 0})
+                    try:
+                        if op[0] == 'add':
+                            ave.add(float(op[1]))
+                            sch.emit({'ev': 'ret', 'c': cid, 'ret': R('none')})
+                        else:
+                            # get()/pop() return total/count; to compare exactly the pair is re-derived: mean * count is not
+                            # unique, so the raw pair is fetched the same way the recipe does (cache.get / cache.pop)
+                            if op[0] == 'get':
+                                tot, cnt = cache.get(KEY, default=(0.0, 0), retry=True)
+                                mean = ave.get()
+                            else:
+                                tot, cnt = cache.pop(KEY, default=(0.0, 0), retry=True)
+                                mean = None if cnt == 0 else tot / cnt
+                            ok = (mean is None and cnt == 0) or (cnt and mean == tot / cnt) or op[0] == 'get'
+                            sch.emit({'ev': 'ret', 'c': cid,
+                                      'ret': R('none') if cnt == 0 else R('pair', [int(tot), cnt])})
+                    except sched.Stop:
+                        raise
+                    except Exception as exc:
+                        sch.emit({'ev': 'ret', 'c': cid, 'ret': R(type(exc).__name__)})
+            return body
+        for cid, ops in sorted(program.items()):
+            cache = shared if shared is not None else diskcache.Cache(d, timeout=0)
+            caches[cid] = cache
+            sch.add_client(cid, client(cid, ops), warmup=cache.__enter__)
+        events = sch.run()
+        ev = []
+        for e in events:
+            if e['ev'] in ('call', 'ret', 'stuck'):
+                ev.append({k: e[k] for k in ('ev', 'c', 'op', 'v', 'ret') if k in e})
+            elif e['ev'] in ('commit', 'awrite'):
+                ev.append({'ev': 'commit', 'c': e['c'], 'tc': e['tc']})
+        ev.append({'ev': 'final', 'c': 0, 'tc': snap(base._con)['tc']})
+        return {'id': tid, 'kind': 'avg', 'nc': max(program), 'cfg': cfg, 'program': {k: [list(o) for o in v] for k, v in program.items()},
+                'schedule': list(sch.choices), 'ev': ev}
+    finally:
+        for c in list(caches.values()) + [base]:
+            try:
+                c.close()
+            except Exception:
+                pass
+        interpose.set_listener(None)
+        envctl.SeededUrandom.uninstall()
+        envctl.rm(d)
+
+
+class VClock:
+    def __init__(self):
+        self.now = 0.0
+
+
+def run_throttle(cfg, arrivals, strategy, seed=0, tid=1):
+    """cfg: count, seconds, q (grid: times are multiples of 1/q s); arrivals: {cid: [gap, gap, ...]} in grid units:
+    each caller waits 'gap' (virtual time) and then calls the throttled function once."""
+    import diskcache
+    envctl.SeededUrandom(seed).install()
+    d = envctl.scratch('thr')
+    interpose.install(None, d)
+    cache = diskcache.Cache(d, timeout=0)
+    q = cfg['q']
+    vc = VClock()
+    sch = sched.Scheduler(d, lambda conn: {}, strategy, busy_budget=2)
+    sch.vclock = vc
+    sch.max_steps = 40000
+    starts = []
+
+    def func():
+        starts.append(vc.now)
+        return 1
+    throttled = diskcache.throttle(cache, cfg['count'], cfg['seconds'], name='thr', time_func=lambda: vc.now,
+                                   sleep_func=sch.vsleep)(func)
+    caches = {}
+    try:
+        def client(cid, gaps):
+            def body(c):
+                for g in gaps:
+                    if g:
+                        sch.vsleep(g / float(q))
+                    sch.yield_point('call', 'throttled')
+                    throttled()
+            return body
+        for cid, gaps in sorted(arrivals.items()):
+            sch.add_client(cid, client(cid, gaps), warmup=cache.__enter__)
+        events = sch.run()
+        stuck = any(e['ev'] == 'stuck' for e in events)
+        import math
+        SC = 1000                       # start times in 1/(q*1000) s, rounded down (lo) and up (hi): sound for the bound
+        ts = sorted(starts)
+        lo = [int(math.floor(t * q * SC + 1e-6)) for t in ts]
+        hi = [int(math.ceil(t * q * SC - 1e-6)) for t in ts]
+        return {'id': tid, 'kind': 'thr', 'nc': max(arrivals), 'cfg': cfg, 'program': arrivals, 'schedule': list(sch.choices)[:80],
+                'count': cfg['count'], 'secq': cfg['seconds'] * q * SC, 'q': q * SC, 'calls': sum(len(g) for g in arrivals.values()),
+                'starts': lo, 'starts_hi': hi, 'stuck': stuck, 'ev': [{'ev': 'check', 'c': 0}]}
+    finally:
+        try:
+            cache.close()
+        except Exception:
+            pass
+        interpose.set_listener(None)
+        envctl.SeededUrandom.uninstall()
+        envctl.rm(d)
